@@ -71,7 +71,7 @@ def required_counters(tier):
         "route.pickle": 400,
         "route.copy": 100,
         "route.deepcopy": 100, "roundtrips.two_hops": 300,
-        "loads_after_state_change": 30,
+        "loads_after_state_change": 30, "roundtrips.made_while_checking_disabled": 30,
     }
 
 
@@ -273,6 +273,19 @@ def run_shard(rec, seed, shard, tier):
                     rec.case((expr, route, "same"), nontrivial=bool(feats))
                     rec.violation("roundtrip-raises", dict(case, where="same-process"), f"{route} of {expr} raised {type(e).__name__}: {str(e)[:200]}", mechanism=mech(expr, route, "same", "raises-" + type(e).__name__))
                     continue
+                if route in ("pickle4", "cloudpickle", "deepcopy") and k % 4 == 1:
+                    # the copy is made / loaded while checking is switched off and used after it is on again
+                    import jaxtyping as _jt
+
+                    _jt.config.update("jaxtyping_disable", True)
+                    try:
+                        cpw = copy.deepcopy(ann) if route == "deepcopy" else pickle.loads(blob)
+                    finally:
+                        _jt.config.update("jaxtyping_disable", False)
+                    hw, vw = vec_hash(cpw)
+                    rec.count("roundtrips.made_while_checking_disabled")
+                    if hw != h0:
+                        rec.violation("meaning-changed", dict(case, where="same-process, copy made while checking was disabled"), f"{route} copy of {expr} made while jaxtyping_disable was on accepts differently afterwards: {first_diff(v0, vw)}", mechanism=mech(expr, route, "disabled-window", "differs"))
                 h1, v1 = vec_hash(cp)
                 rec.case((expr, route, "same"), nontrivial=bool(feats))
                 rec.count("roundtrips.same_process")
